@@ -14,6 +14,8 @@ package agent
 //   fwd-up/down the same through DialForward and the port-forward handler
 //   upload      Agent.UploadFile  (streamFileContent -> handleFileTransferStreamData)
 //   download    Agent.DownloadFile (sendFileDownload -> receiveAndWriteFile)
+//   shell       the remote-shell path (stdout / stderr / stdin, streaming and PTY mode, real processes):
+//               second half of this check, shell_test.go (c07ShellAll)
 // Oracle: every frame written on any link during the run carries at most protocol.MaxPayloadSize
 // payload bytes (and Frame.Encode never refused one: a refused frame would be missing from the far
 // end), and the bytes that arrive at the far end equal the bytes written, in order.
@@ -272,7 +274,15 @@ func c07Sizes(thorough bool) []int {
 func TestVerif_C07(t *testing.T) {
 	r := vmc.New("C07", "exploration")
 	r.Rule = "size grid (all sizes around every chunking boundary, small sizes, large sizes) x data path {tcp up/down, port-forward up/down, file upload, file download} through the real ingress, a real transit and a real exit; every frame written during a case is measured; non-trivial = distinct (path, number of data frames) classes; outcomes = distinct (path, size, frames)"
-	r.Assume("shell stdin/stdout paths are not driven by this check (they need a process-free session seam); see DESIGN.md")
+	var rps c07ShellCase
+	if r.ReplayInto(&rps) && rps.Shell {
+		c07ShellRun(r, rps)
+		c07ShellTeardown.Wait()
+		if err := r.Finish(); err != nil {
+			t.Fatal(err)
+		}
+		return
+	}
 	w, err := c07Build()
 	if err != nil {
 		t.Fatal(err)
@@ -327,6 +337,7 @@ func TestVerif_C07(t *testing.T) {
 			}
 		}
 	}
+	c07ShellAll(r)
 	r.Sample(c07Case{"tcp-up", 16357, 0})
 	r.Sample(c07Case{"download", 32712, 0})
 	if err := r.Finish(); err != nil {
